@@ -1035,7 +1035,7 @@ class Frame:
                 r = base[lo:hi]
                 return MList(r, self.ev.new_ident('list')) if isinstance(base, MList) else r
             return Opaque(f'{_tag(base)}[{"" if lo is None else _tag(lo)}:{"" if hi is None else _tag(hi)}]')
-        idx = self.eval(n.slice)
+        idx = self._few_bits(self.eval(n.slice)) if isinstance(base, (dict, tuple, list)) else self.eval(n.slice)
         if isinstance(base, dict) and isinstance(idx, Opaque) and 0 < len(base) <= 8 and \
                 all(isinstance(k, (str, bytes, int)) and not isinstance(k, bool) for k in base):
             # a constant table indexed by an unknown key: case split over the keys (the same atoms as an if / elif chain)
@@ -1053,6 +1053,20 @@ class Frame:
             except Exception:
                 pass
         return Opaque(f'{_tag(base)}[{_tag(idx)}]')
+
+    def _few_bits(self, v: Any) -> Any:
+        """A flag word of which only a few bits are undecided (`flags & (CASE | IGNORECASE)`) used as a key: case-split on those bits."""
+        if isinstance(v, BV) and 0 < bin(ALL & ~v.known).count('1') <= 4:
+            unknown = ALL & ~v.known
+            while unknown:
+                low = unknown & -unknown
+                self._decide_bit(v.origin, low)
+                v = self._refine(v)
+                unknown = ALL & ~v.known
+            return v.val
+        if isinstance(v, BV) and not (ALL & ~v.known):
+            return v.val
+        return v
 
     def comprehension(self, n: Any) -> Any:
         """Abstract a comprehension: element expression evaluated once with an opaque element of each iterable."""
@@ -1281,6 +1295,18 @@ class Frame:
                     return getattr(base, f.attr)(*args)  # a pure method of a constant string
                 except (TypeError, ValueError, LookupError):
                     pass
+        if isinstance(f, ast.Attribute) and f.attr == 'get' and isinstance(f.value, ast.Name) and 1 <= len(args) <= 2 and not kwargs:
+            base = self.eval(f.value)
+            if isinstance(base, dict) and 0 < len(base) <= 8:
+                k = self._few_bits(args[0])
+                dflt = args[1] if len(args) == 2 else None
+                if isinstance(k, (str, bytes, int)) and not isinstance(k, bool):
+                    return base.get(k, dflt)  # a constant table and a decided key
+                if isinstance(k, Opaque) and all(isinstance(x, (str, bytes, int)) and not isinstance(x, bool) for x in base):
+                    for x in base:
+                        if self.compare(ast.Eq(), k, x, n):
+                            return base[x]
+                    return dflt
         if isinstance(f, ast.Attribute) and f.attr == 'format':
             base = self.eval(f.value)
             if isinstance(base, str):
